@@ -1,0 +1,14 @@
+//go:build verif
+
+package fs
+
+// Contracts for the verification machinery in /verif (comment-only; build tag verif).
+
+// C16: garbage collection hands the handler the locations of uploads whose records it has already dropped: every one
+// of them is attempted, whatever happens to the others (a file that is already gone, a failing removal), otherwise the
+// bytes of the remaining ones are orphaned for good.
+//@ func (fh *fshandler) Delete(locations []string) (err error)
+//@   modifies inferred
+//@   ensures [C16] every_location_attempted: called("Remove") == old(called("Remove")) + len(locations)
+//@   loop 1
+//@     invariant [C16] one_attempt_each: called("Remove") == old(called("Remove")) + #idx && 0 <= #idx && #idx <= len(locations)
